@@ -705,3 +705,136 @@ Proof.
   split; [intros parent recs1 r p recs2; apply msgs_walk_old_stops|].
   destruct old_walk_witness as (H1 & H2 & H3 & _). auto.
 Qed.
+
+(* ------------------------------------------------------------------ *)
+(* the queue holds names: every entry is imported, in order, whatever went through the queue before *)
+
+Lemma entry_fold parent fsys ps : forall r rb,
+  fold_left (entry_step parent fsys) ps (r, rb) =
+  ((queue_run parent r (queue_files fsys ps)).1,
+   fold_left rib_apply (queue_run parent r (queue_files fsys ps)).2 rb).
+Proof.
+  induction ps as [|p ps IH]; intros r rb; [reflexivity|].
+  cbn [fold_left queue_files map queue_run]. fold (queue_files fsys ps).
+  unfold entry_step at 2. cbn [fst snd].
+  destruct (process_file parent r (resolve fsys p)) as [[r1 us] st].
+  rewrite IH. destruct (queue_run parent r1 (queue_files fsys ps)) as [r2 us'].
+  cbn [fst snd]. rewrite fold_left_app. reflexivity.
+Qed.
+
+Lemma i_import_fold fsys ps :
+  i_import (queue_files fsys ps) = fold_left (fun rb p => i_file rb (resolve fsys p)) ps ∅.
+Proof.
+  unfold i_import, queue_files. generalize (∅ : irib).
+  induction ps as [|p ps IH]; intros rb; [reflexivity|]. cbn [map fold_left]. apply IH.
+Qed.
+
+(* the register and the RIB after a queue of entries = the fold of the per-entry effects over ALL entries, a path
+   that stands in the queue twice (or two paths holding the same file) included; likewise the property's reading *)
+Lemma queue_entries_all_applied fsys ps :
+  ((queue_run unit_start.1 unit_start.2 (queue_files fsys ps)).1, import (queue_files fsys ps)) =
+    fold_left (entry_step unit_start.1 fsys) ps (unit_start.2, rib_empty) /\
+  i_import (queue_files fsys ps) = fold_left (fun rb p => i_file rb (resolve fsys p)) ps ∅.
+Proof.
+  split; [|apply i_import_fold]. rewrite entry_fold. reflexivity.
+Qed.
+
+(* a file that comes again is processed again, from the register the queue has left by then *)
+Lemma repeat_runs_again parent r f fs :
+  queue_run parent r (f :: fs ++ [f]) =
+  let '(r1, us1, _) := process_file parent r f in
+  let '(r2, us2) := queue_run parent r1 fs in
+  let '(r3, us3, _) := process_file parent r2 f in
+  (r3, us1 ++ us2 ++ us3).
+Proof.
+  cbn [queue_run]. destruct (process_file parent r f) as [[r1 us1] st1].
+  rewrite queue_run_app. destruct (queue_run parent r1 fs) as [r2 us2].
+  cbn [queue_run]. destruct (process_file parent r2 f) as [[r3 us3] st3].
+  rewrite app_nil_r. reflexivity.
+Qed.
+
+(* ... and every UPDATE in it leaves the gate again, from ANY register *)
+Lemma msgs_walk_emits parent recs : forall r p u,
+  In (RMsg p (BUpdate u)) recs -> exists id, In (UBulk (payloads_of id u)) (msgs_walk parent r recs).2.
+Proof.
+  induction recs as [|rc recs IH]; intros r p u Hin; [destruct Hin|].
+  cbn [msgs_walk]. destruct (msg_step parent r rc) as [r1 us] eqn:E.
+  destruct (msgs_walk parent r1 recs) as [r2 us'] eqn:E2. cbn [snd].
+  destruct Hin as [->|Hin].
+  - cbn [msg_step] in E. destruct (find_or_register peer_match r (mrt_query parent p)) as [id r'].
+    injection E as _ <-. exists id. apply in_or_app. left. left. reflexivity.
+  - destruct (IH r1 p u Hin) as [id Hid]. rewrite E2 in Hid. exists id. apply in_or_app. right. exact Hid.
+Qed.
+
+Lemma update_file_emits parent r name recs p u :
+  update_file (FGood name recs) = true -> In (RMsg p (BUpdate u)) recs ->
+  exists id, In (UBulk (payloads_of id u)) (process_file parent r (FGood name recs)).1.2.
+Proof.
+  intros Hu Hin. destruct (msgs_walk_emits parent recs r p u Hin) as [id Hid]. exists id.
+  assert (E : process_file parent r (FGood name recs) = (let '(r2, us) := msgs_walk parent r recs in (r2, us, SOk))).
+  { destruct recs as [|[ps|? ? ?|? ?|? ? ?|] rest]; try reflexivity. discriminate Hu. }
+  rewrite E. destruct (msgs_walk parent r recs). exact Hid.
+Qed.
+
+(* the seeded change's witness: A = announce 10.5/16 (attributes 3), B = withdraw it; A, B, A ends with the route
+   active, in the RIB and in the property's reading; what a loop that skips the repeat leaves (= A, B) has it withdrawn *)
+Definition file_ann : mfile := FGood 0 [RMsg pA (BUpdate (URoutes 0 [5] 3 0 []))].
+Definition file_wd : mfile := FGood 1 [RMsg pA (BUpdate (URoutes 0 [] 0 0 [5]))].
+Definition file_ann_copy : mfile := FGood 2 [RMsg pA (BUpdate (URoutes 0 [5] 3 0 []))].
+Definition file_down : mfile := FGood 3 [RState pA 6 1].
+Lemma aba_witness :
+  rib_lookup (import [file_ann; file_wd; file_ann]) (0, 5, 2) = Some (true, 3) /\
+  rib_lookup (import [file_ann; file_wd; file_ann_copy]) (0, 5, 2) = Some (true, 3) /\
+  rib_lookup (import [file_ann; file_wd]) (0, 5, 2) = Some (false, 3) /\
+  i_import [file_ann; file_wd; file_ann] !! (0, 5, pA) = Some (true, 3) /\
+  i_import [file_ann; file_down; file_ann_copy] !! (0, 5, pA) = Some (true, 3) /\
+  i_import [file_ann; file_wd] !! (0, 5, pA) = Some (false, 3).
+Proof. vm_compute. repeat split; reflexivity. Qed.
+
+Lemma repeat_is_reapplied :
+  (forall parent r f fs,
+     queue_run parent r (f :: fs ++ [f]) =
+     let '(r1, us1, _) := process_file parent r f in
+     let '(r2, us2) := queue_run parent r1 fs in
+     let '(r3, us3, _) := process_file parent r2 f in
+     (r3, us1 ++ us2 ++ us3)) /\
+  (forall parent r name recs p u,
+     update_file (FGood name recs) = true -> In (RMsg p (BUpdate u)) recs ->
+     exists id, In (UBulk (payloads_of id u)) (process_file parent r (FGood name recs)).1.2) /\
+  rib_lookup (import [file_ann; file_wd; file_ann]) (0, 5, 2) = Some (true, 3) /\
+  rib_lookup (import [file_ann; file_wd; file_ann_copy]) (0, 5, 2) = Some (true, 3) /\
+  rib_lookup (import [file_ann; file_wd]) (0, 5, 2) = Some (false, 3) /\
+  i_import [file_ann; file_wd; file_ann] !! (0, 5, pA) = Some (true, 3) /\
+  i_import [file_ann; file_down; file_ann_copy] !! (0, 5, pA) = Some (true, 3) /\
+  i_import [file_ann; file_wd] !! (0, 5, pA) = Some (false, 3).
+Proof.
+  split; [exact repeat_runs_again|]. split; [exact update_file_emits|]. exact aba_witness.
+Qed.
+
+(* the file that is imported is the one the entry names: what the tree holds under OTHER paths - a file of the same
+   name in another directory above all - has no influence; witness: rrc01/updates and updates hold different files *)
+Lemma queue_files_ext fsys fsys' ps :
+  (forall p, In p ps -> resolve fsys p = resolve fsys' p) -> queue_files fsys ps = queue_files fsys' ps.
+Proof.
+  intros H. unfold queue_files. apply map_ext_in. exact H.
+Qed.
+
+Lemma resolve_write fsys p f q :
+  resolve (store_write fsys p f) q = if bool_decide (p = q) then f else resolve fsys q.
+Proof. reflexivity. Qed.
+
+Definition tree_same_names : fstore := [([7], file_wd); ([1; 7], file_ann)].
+Lemma entry_imports_named_file :
+  (forall fsys fsys' ps, (forall p, In p ps -> resolve fsys p = resolve fsys' p) ->
+     queue_files fsys ps = queue_files fsys' ps /\
+     import (queue_files fsys ps) = import (queue_files fsys' ps) /\
+     i_import (queue_files fsys ps) = i_import (queue_files fsys' ps)) /\
+  (forall fsys p f q, resolve (store_write fsys p f) q = if bool_decide (p = q) then f else resolve fsys q) /\
+  resolve tree_same_names [1; 7] = file_ann /\
+  rib_lookup (import (queue_files tree_same_names [[1; 7]])) (0, 5, 2) = Some (true, 3) /\
+  rib_lookup (import (queue_files tree_same_names [[7]])) (0, 5, 2) = None.
+Proof.
+  split.
+  { intros fsys fsys' ps H. rewrite (queue_files_ext fsys fsys' ps H). auto. }
+  split; [exact resolve_write|]. vm_compute. repeat split; reflexivity.
+Qed.
